@@ -77,6 +77,15 @@ theorem C17_types_eq_xlsx_partial : Prof.types = Xlsx.types.map (fun t => (t.ded
 theorem C17_KF1_witness_types : ¬ C17_types_eq_xlsx_full :=
   Lemmas.KF1_witness_types
 
+/-- **Entry by entry (typed messages).** Every message of the spreadsheet has a typed struct in profile/mesgdef and vice
+versa; the struct (as reflection and probing of the compiled code show it, `Generated/Mesgdef.lean`) has exactly one slot
+per field row, of the kind, base type and fixed length the row prescribes, marked as expandable exactly when a component
+of the message expands into it, and `ToMesg` emits the fields in the order of the rows. (What the slots *do* is C13.) -/
+theorem C17_mesgdef_matches_xlsx :
+    Mesgdef.tables.map (·.num) = Xlsx.mesgs.map (·.num) ∧
+    ∀ T ∈ Mesgdef.tables, tableMatchesXlsx (Xlsx.mesgs.map (Mesg.fix f14)) Xlsx.fixedLens Xlsx.fieldOrder T = true :=
+  Lemmas.mesgdef_matches_xlsx
+
 /-! ## internal consistency of the generated packages -/
 
 /-- **References resolve.** In every message of the factory: field numbers are distinct and below 255, every
